@@ -638,18 +638,19 @@ const derivedNameInfix = "$htmltemplate_"
 // from template names mangled with different contexts.
 func mangle(c context, templateName string) string {
 	// The mangled name for the default context is the input templateName.
+	invalid := false
 	if c.state == stateText {
 		if _, err := sanitizerForElementContent(c); err == nil && !c.element.continued && c.enclosing == "" {
-			if c.inNoscript {
-				// The text of the called template is checked for "</noscript", and the context
-				// after the call is still inside the element: a copy of its own.
-				return templateName + derivedNameInfix + c.state.String() + "_" + c.element.String() + "_inNoscript"
+			if !c.inNoscript {
+				return templateName
 			}
-			return templateName
+			// The text of the called template is checked for "</noscript", and the context
+			// after the call is still inside the element: a copy of its own.
+		} else {
+			// Actions are not allowed in the content of this element: analyse a separate copy
+			// instead of reusing the analysis made for element contents where they are.
+			invalid = true
 		}
-		// Actions are not allowed in the content of this element: analyse a separate copy
-		// instead of reusing the analysis made for element contents where they are.
-		return templateName + derivedNameInfix + c.state.String() + "_" + c.element.String() + "_Invalid"
 	}
 	s := templateName + derivedNameInfix + c.state.String()
 	if c.delim != 0 {
@@ -661,13 +662,16 @@ func mangle(c context, templateName string) string {
 	if c.element.name != "" {
 		s += "_" + c.element.String()
 	}
+	if invalid {
+		s += "_Invalid"
+	}
 	// Everything else that the sanitization of an action in the called template can depend
 	// on is part of the name as well.
 	if len(c.attr.names) > 0 {
-		s += "_attrNames(" + strings.Join(sortedCopy(c.attr.names), ",") + ")"
+		s += "_attrNames(" + strings.Join(sortedCopy(c.attr.names), " ") + ")" // no name contains a space
 	}
 	if len(c.element.names) > 0 {
-		s += "_elementNames(" + strings.Join(sortedCopy(c.element.names), ",") + ")"
+		s += "_elementNames(" + strings.Join(sortedCopy(c.element.names), " ") + ")"
 	}
 	if c.element.partial {
 		s += "_elementNameUnfinished"
